@@ -45,10 +45,10 @@ ASSUMPTIONS = [
     "mu + sigma*w(Z) agree with the given ones modulo eps^(L-1); equals Abramowitz-Stegun 26.2.49 for L <= 6",
     "sympy evaluates Polar's returned expressions correctly at integer n / substitutes erfinv(2p-1) -> z/sqrt(2) correctly",
 ]
-TIMEOUT = {"quick": 60, "thorough": 240}
+TIMEOUT = {"quick": 60, "thorough": 150}
 DEADLINE = {"quick": 100, "thorough": 1500}
 MIN_DECIDING = {"quick": 120, "thorough": 1200}
-NCASES = {"quick": (150, 46, 30), "thorough": (3000, 420, 600)}   # conv, prog, exp
+NCASES = {"quick": (150, 46, 30), "thorough": (3000, 360, 600)}   # conv, prog, exp
 
 
 # =================================================================== generation
@@ -317,6 +317,39 @@ def cornish_fisher_table(g, L):
 
 
 # =================================================================== helpers
+SOFT_BUDGET = {"quick": 30, "thorough": 90}   # seconds per program case (below the watchdog, keeps the worker alive)
+
+
+class _SoftTimeout(BaseException):
+    pass
+
+
+class _soft_budget:
+    """SIGALRM based budget (main thread only; silently inactive elsewhere)"""
+
+    def __init__(self, seconds):
+        self.seconds = seconds
+        self.active = False
+
+    def __enter__(self):
+        import signal
+        import threading
+        if threading.current_thread() is threading.main_thread() and hasattr(signal, "setitimer"):
+            def handler(signum, frame):
+                raise _SoftTimeout()
+            self.old = signal.signal(signal.SIGALRM, handler)
+            signal.setitimer(signal.ITIMER_REAL, self.seconds)
+            self.active = True
+        return self
+
+    def __exit__(self, *exc):
+        if self.active:
+            import signal
+            signal.setitimer(signal.ITIMER_REAL, 0)
+            signal.signal(signal.SIGALRM, self.old)
+        return False
+
+
 def to_sym(x):
     import sympy
     x = F(x)
@@ -354,7 +387,20 @@ def run_case(case, tier):
     if kind == "conv":
         return run_conv(case, tier)
     if kind == "prog":
-        return run_prog(case, tier)
+        from ..ref.engine import CapExceeded
+        try:
+            with _soft_budget(SOFT_BUDGET[tier]):
+                return run_prog(case, tier)
+        except CapExceeded as e:     # the reference engine gave up while computing a high moment
+            res = _base(case)
+            res.update(verdict="inconclusive", reason="oracle-cap", detail=str(e)[:80], features=list(case.get("features", [])))
+            return res
+        except _SoftTimeout:
+            P.reset_settings()
+            res = _base(case)
+            res.update(verdict="inconclusive", reason="timeout", detail=f"soft budget {SOFT_BUDGET[tier]} s",
+                       features=list(case.get("features", [])))
+            return res
     if kind == "exp":
         return run_exp(case, tier)
     raise ValueError(kind)
